@@ -678,6 +678,58 @@ Fixpoint run_actions (acts : list act) (ps : list rparam) (ev_target : key) (fre
       end
   end.
 
+(* ---- random access through a fetcher (fetch.rs:45-98) ---- *)
+(* get / get_mut: (10, [item]) | (11, []) no such entity | (12, []) query does not match *)
+Definition fetch_get (w : world) (q : query) (c : list centry) (e : key) : fail + (N * list item) :=
+  match sm_get e (w_ents w) with
+  | None => inr (11, [])
+  | Some loc =>
+      match find (fun ce => ce_idx ce =? fst loc) c with
+      | None => inr (12, [])
+      | Some _ => match recv_item w q c loc with inl f => inl f | inr it => inr (10, [it]) end
+      end
+  end.
+Fixpoint has_dup (l : list key) : bool :=
+  match l with [] => false | x :: t => existsb (key_eqb x) t || has_dup t end.
+(* get_many_mut: (20, items) | (21, []) aliased | (22, []) no such entity | (23, []) no match *)
+Fixpoint fetch_get_all (w : world) (q : query) (c : list centry) (es : list key) : fail + (N * list item) :=
+  match es with
+  | [] => inr (20, [])
+  | e :: t =>
+      match fetch_get w q c e with
+      | inl f => inl f
+      | inr (10, its) => match fetch_get_all w q c t with
+                         | inl f => inl f
+                         | inr (20, r) => inr (20, its ++ r)
+                         | inr other => inr other end
+      | inr (11, _) => inr (22, [])
+      | inr (_, _) => inr (23, [])
+      end
+  end.
+Definition fetch_get_many (w : world) (q : query) (c : list centry) (es : list key) : fail + (N * list item) :=
+  if has_dup es then inr (21, []) else fetch_get_all w q c es.
+
+(* the probes every Fetcher parameter of the harness performs at each invocation *)
+Definition probe_lists (ids : list key) : list (bool * list key) :=   (* (many?, ids) *)
+  match ids with
+  | [] => []
+  | [e0] => [(false, [e0])]
+  | [e0; e1] => [(false, [e0]); (false, [e1]); (true, [e0; e1]); (true, [e0; e1; e0])]
+  | e0 :: e1 :: e2 :: _ => [(false, [e0]); (false, [e1]); (false, [e2]); (true, [e0; e1]); (true, [e0; e1; e0]);
+                            (true, [e1; e2; e2]); (true, [e2; e0; e1])]
+  end.
+Fixpoint run_probes (w : world) (q : query) (c : list centry) (ps : list (bool * list key)) : fail + list (N * list item) :=
+  match ps with
+  | [] => inr []
+  | (many, es) :: t =>
+      let r := if many then fetch_get_many w q c es
+               else match es with e :: _ => fetch_get w q c e | [] => inr (11, []) end in
+      match r with
+      | inl f => inl f
+      | inr x => match run_probes w q c t with inl f => inl f | inr xs => inr (x :: xs) end
+      end
+  end.
+
 (* events whose value carries a mutable payload in the harness *)
 Definition ev_has_payload (targeted : bool) (tag : N) : bool :=
   if targeted then (tag <? 4) || ((20 <=? tag) && (tag <? 40) && negb (ctag_zst (tag - 20))) else tag <? 4.
@@ -711,7 +763,11 @@ Fixpoint param_views (w : world) (ps : list rparam) (loc : eloc)
                   let code := if nlen items =? 1 then 2 else if nlen items =? 0 then 3 else 4 in
                   match param_views w t loc with inl f => inl f | inr (r, v) => inr (r, (code, if nlen items =? 1 then items else []) :: v) end
               | FkFetcher =>
-                  match param_views w t loc with inl f => inl f | inr (r, v) => inr (r, (0, items) :: v) end
+                  match run_probes w q c (probe_lists (k_ids (w_h w))) with
+                  | inl f => inl f
+                  | inr probes =>
+                      match param_views w t loc with inl f => inl f | inr (r, v) => inr (r, ((0, items) :: probes) ++ v) end
+                  end
               end
           end
       | _ => param_views w t loc
